@@ -165,6 +165,7 @@ theorem resolve_spec {Wire : Type} [DecidableEq Wire] (C : Codec Wire) (cfg : Cf
         W.reg.find sid = some e ∧ expired e W.env.now = false ∧ (checkPrincipal = true → e.pkey = pkey rq.ident) ∧
         resolve C cfg W rq = (W, .resumed e)) := by
   unfold resolve
+  simp only [Reg.getLive_eq]
   cases hs : rq.session with
   | none => exact Or.inl ⟨rfl, rfl⟩
   | some w =>
@@ -733,7 +734,7 @@ theorem C27_drain_serves {Wire : Type} [DecidableEq Wire] (C : Codec Wire) (cfg 
     · rw [hr] at hres
       cases hres
       unfold resolve
-      simp only [hw, ho]
+      simp only [Reg.getLive_eq, hw, ho]
       have hsrv' : ¬(checkServerId = true ∧ asciiReplaceUtf8 sidB ≠ cfg.serverId) := fun h => h.2 (hsrv h.1)
       rw [if_neg hsrv']
       have hg : ({ W.reg with draining := true } : Reg).get sid (pkey rq.ident) W.env.now =
